@@ -43,6 +43,13 @@ CHECKS = {
             "outside that finding it is checked by the oracle (equal pairs: same verdicts, same serialization) on single-site mutations.  Equality.v is tied to the "
             "code by evaluating elem_eq in Coq on every generated pair.",
             "reflexive/symmetric full; interchangeable: refuted in general (finding), otherwise oracle + correspondence (no congruence theorem yet)"),
+    "C08": ("Coq theorem over all bind histories (re-binding well-bound properties is the identity; every prefix too) + write set regenerated from /repo and checked against the audited one + before/after identity-dump oracle + _Property.bind correspondence",
+            "C08_pure/C08_repeatable: from a well-bound store any finite sequence of the binds that calls perform leaves every shared property cell unchanged; "
+            "C08_writes_audited: every store statement in statham/schema (outside the parser), as re-read from /repo by the translator on each run, is an audited "
+            "one (the binds, the reconfiguration API, the registry, result objects, fresh locals).  Tied to the code by random _Property.bind histories, by checking "
+            "WB on dumps of real trees in Coq, and by the oracle: identity-structural dump of the whole tree, input value, repr, both serializations, == fresh copy, "
+            "3x repetition, on DSL and parsed trees.",
+            "full on the model; that the audited writes are the only ones rests on the translator's scan (trusted) and on the dump oracle"),
 }
 
 REASONS_PENDING = "check under construction in this session: not yet claimed"
